@@ -56,14 +56,22 @@ def _atoms(expr: ast.AST, pol: bool, cfg: CFG, at: int, depth: int = 3) -> List[
     return [(expr, pol)]
 
 
-def guard_facts(cfg: CFG, at: int) -> List[Tuple[ast.AST, bool]]:
-    """Atomic (expression, polarity) facts that hold whenever control reaches node `at`."""
+def guard_facts(cfg: CFG, at: int, skip_abort_guards: bool = False) -> List[Tuple[ast.AST, bool]]:
+    """Atomic (expression, polarity) facts that hold whenever control reaches node `at`.
+
+    With skip_abort_guards, tests whose other branch can only end in an exception (assert, `if bad: raise`) are left
+    out: they do not select between two ways of completing normally."""
     facts: List[Tuple[ast.AST, bool]] = []
     for t, lab in cfg.controlling_tests(at):
         tn = cfg.nodes[t]
         test = getattr(tn.ast, "test", None)
         if test is None:
             continue
+        if skip_abort_guards:
+            other = "F" if lab == "T" else "T"
+            succ = [x for x, l in tn.succs if l == other]
+            if succ and all(cfg.exit not in cfg.reachable_from(x) for x in succ):
+                continue
         facts += _atoms(test, lab == "T", cfg, t)
     return facts
 
